@@ -139,6 +139,8 @@ type runner struct {
 	nans   map[string]int
 	// instant: see Options.Instant
 	instant bool
+	// events: the event objects handed over so far, by kind and name
+	events map[string]event.IEvent
 }
 
 func (r *runner) hasBoundary(node string) bool {
@@ -833,12 +835,21 @@ func (r *runner) perform(ctx context.Context, cancel context.CancelFunc, inst *b
 			r.add(Rec{Ev: "deliver", Kind: st.Kind, Node: st.Node})
 		}
 		r.mu.Unlock()
+		// on every second run an event of one kind and name is ONE object, handed over again
+		// for each delivery (an application may well keep its events around)
 		var ev event.IEvent
-		if st.Kind == "message" {
+		key := st.Kind + "/" + st.Node
+		if r.run%2 == 1 && r.events[key] != nil {
+			ev = r.events[key]
+		} else if st.Kind == "message" {
 			ev = event.NewMessageEvent(st.Node, nil)
 		} else {
 			ev = event.NewSignalEvent(st.Node)
 		}
+		if r.events == nil {
+			r.events = map[string]event.IEvent{}
+		}
+		r.events[key] = ev
 		ok := callWithin(o.T, func() { _, _ = inst.ConsumeEvent(ev) })
 		r.mu.Lock()
 		if ok {
